@@ -221,7 +221,7 @@ def run(ctx):
             for pos in (0, len(c['prefix'])):
                 reqs.append(f"rmatch {c['rule']} {pos} {vlib.cps(s)}")
                 meta.append((c['rule'], pos, s))
-    replies = vlib.run_model(reqs)
+    replies = vlib.run_model(reqs, timeout=ctx.n(180, 900))
     for (i, pos, s), r in zip(meta, replies):
         mine = impl.rmatch_dump(i, pos, s)
         if mine != r:
